@@ -775,8 +775,17 @@ func maxAcceptedDepth(w *World, p *packages.Package) (int64, string) {
 				appendPos = x.Pos()
 			}
 		case *ast.IfStmt:
-			if b, ok := ast.Unparen(x.Cond).(*ast.BinaryExpr); ok && strings.Contains(w.Src(b.X), "len(") && cmp == nil {
-				cmp, ifs, cmpPos = b, x, x.Pos()
+			if b, ok := ast.Unparen(x.Cond).(*ast.BinaryExpr); ok && cmp == nil {
+				// len(…) on the left, whichever way the comparison is spelled
+				if !strings.Contains(w.Src(b.X), "len(") && strings.Contains(w.Src(b.Y), "len(") {
+					m := map[token.Token]token.Token{token.LSS: token.GTR, token.GTR: token.LSS, token.LEQ: token.GEQ, token.GEQ: token.LEQ}
+					if op, ok := m[b.Op]; ok {
+						b = &ast.BinaryExpr{X: b.Y, OpPos: b.OpPos, Op: op, Y: b.X}
+					}
+				}
+				if strings.Contains(w.Src(b.X), "len(") {
+					cmp, ifs, cmpPos = b, x, x.Pos()
+				}
 			}
 		}
 		return true
